@@ -95,8 +95,7 @@ MissingTails == {<<FlagS(<<"decode_group">>)>>, <<FlagL("decode_group", "decode"
 InsertAt(v, i, t) == SubSeq(v, 1, i) \o <<t>> \o From(v, i + 1)
 FileIdxOf(toks) == SelectIdx(toks, LAMBDA t : t.k = "pos" /\ FileKind(JoinSyms(t.sym)) \notin {"M"})
 ErrCases ==
-    {Case("argerr", "", InsertAt(b, i, t), <<>>, "A") : b \in ErrBases, t \in BadToks, i \in 0 .. 4} \cap
-        {c \in {Case("argerr", "", InsertAt(b, i, t), <<>>, "A") : b \in ErrBases, t \in BadToks, i \in 0 .. 4} : TRUE}
+    UNION {{Case("argerr", "", InsertAt(b, i, t), <<>>, "A") : t \in BadToks, i \in 0 .. Len(b)} : b \in ErrBases}
     \cup {Case("argerr", "", b \o m, <<>>, "A") : b \in ErrBases, m \in MissingTails}
 
 \* ---- metamorphic laws: all renderings of one intent form a group ----------------------
